@@ -58,7 +58,6 @@ func blockLinks(st *store.Store, c cid.Cid) ([]cid.Cid, string) {
 	return out, kind
 }
 
-
 // closedAt checks that every block among the first n writes has its links among the first n writes.
 func closedAt(st *store.Store, n int) (cid.Cid, cid.Cid, bool) {
 	have := map[string]bool{}
